@@ -82,6 +82,12 @@ impl Kind {
             _ => 1,
         }
     }
+    /// does the transaction store the same bytes every time it runs on the same file?
+    /// (OAuth2 clients get random secrets and keys, credentials random salts, the level raise
+    /// creates keyed objects)
+    fn deterministic(&self) -> bool {
+        !matches!(self, Kind::Oauth2Create | Kind::CredCommit | Kind::DomainRaise)
+    }
     /// kinds that only exist at the IDM layer
     fn idm_only(&self) -> bool {
         matches!(self, Kind::Oauth2Create | Kind::CredCommit)
@@ -270,6 +276,8 @@ struct TxnReport {
     n_ops: u64,
     n_total: u64,
     log: Vec<&'static str>,
+    /// raw tables of the database file after the transaction (filled in by `run_case`)
+    raw_after: Option<std::sync::Arc<RawDb>>,
 }
 
 async fn run_txn(
@@ -349,6 +357,7 @@ async fn run_txn(
         n_ops,
         n_total,
         log,
+        raw_after: None,
     }
 }
 
@@ -497,6 +506,9 @@ struct Case {
     in_commit: bool,
     /// also restart a second server on the file afterwards (always in thorough)
     restart: bool,
+    /// raw tables after the fault-free run of the same transaction (deterministic kinds only):
+    /// a transaction that commits although a fault fired must have stored exactly this
+    expected_after: Option<std::sync::Arc<RawDb>>,
 }
 
 fn case_json(c: &Case) -> Json {
@@ -605,6 +617,18 @@ async fn run_case(env: &Env, c: &Case, file: &Path, acc: &mut Acc) -> Result<Txn
                     "c04/committed-transaction-not-visible",
                     witness("commit returned Ok but its effect is not visible to a fresh read transaction", json!(v0.diff(&v1).iter().map(|(k, d)| format!("{k}: {d}")).collect::<Vec<_>>())),
                 );
+            }
+            if let (true, Some(exp)) = (fired, &c.expected_after) {
+                let d = raw_diff(exp, &r1);
+                if d.is_empty() {
+                    acc.count("absorbed_fault_result_equals_fault_free_result");
+                } else {
+                    violated = true;
+                    viol(acc,
+                        "c04/commit-reported-success-but-stored-result-differs-from-fault-free-run",
+                        witness("a storage fault fired inside the transaction, commit still returned Ok, and the tables of the database file differ from what the same transaction stores without a fault (an error was swallowed and a write was lost)", json!(d)),
+                    );
+                }
             }
             if r1 == r0 {
                 violated = true;
@@ -746,6 +770,8 @@ async fn run_case(env: &Env, c: &Case, file: &Path, acc: &mut Acc) -> Result<Txn
     if dbg {
         eprintln!("  marks {marks:?}");
     }
+    let mut rep = rep;
+    rep.raw_after = Some(std::sync::Arc::new(r1));
     Ok(rep)
 }
 
@@ -754,7 +780,7 @@ async fn run_case(env: &Env, c: &Case, file: &Path, acc: &mut Acc) -> Result<Txn
 async fn run_chain(
     env: &Env,
     shape_idx: usize,
-    counts: &BTreeMap<(usize, Kind, Layer), (u64, u64, Vec<&'static str>)>,
+    counts: &BTreeMap<(usize, Kind, Layer), (u64, u64, Vec<&'static str>, Option<std::sync::Arc<RawDb>>)>,
     rng: &mut Rng,
     file: &Path,
     acc: &mut Acc,
@@ -768,7 +794,7 @@ async fn run_chain(
     let v0 = observe(&srv, secs(25), Some(&cust)).await?;
     let r0 = raw_db(file)?;
     let layer = if kind.idm_only() || rng.bool() { Layer::Idm } else { Layer::Qs };
-    let Some((n, n_ops, _)) = counts.get(&(shape_idx, kind, layer)).cloned() else {
+    let Some((n, n_ops, _, _)) = counts.get(&(shape_idx, kind, layer)).cloned() else {
         return Err("no count for chain".into());
     };
     let m = 2 + rng.below(3); // 2..4 chained failures, pool is 8
@@ -909,7 +935,7 @@ pub fn run(args: Args) {
     }
 
     // phase 1: counting runs (also the positive controls: every kind commits and is visible)
-    let counts: Mutex<BTreeMap<(usize, Kind, Layer), (u64, u64, Vec<&'static str>)>> =
+    let counts: Mutex<BTreeMap<(usize, Kind, Layer), (u64, u64, Vec<&'static str>, Option<std::sync::Arc<RawDb>>)>> =
         Mutex::new(BTreeMap::new());
     let workers = args.workers.max(1);
     {
@@ -932,6 +958,7 @@ pub fn run(args: Args) {
                     point_kind: "-",
                     in_commit: false,
                     restart: true,
+                    expected_after: None,
                 };
                 let r = catch_unwind(AssertUnwindSafe(|| {
                     rt.block_on(run_case(env, &c, &file, &mut acc))
@@ -941,7 +968,7 @@ pub fn run(args: Args) {
                         if matches!(rep.outcome, Outcome::Committed) {
                             acc.count(&format!("control.commits.{}", k.name()));
                             if let Ok(mut m) = counts.lock() {
-                                m.insert((*s, *k, *l), (rep.n_total, rep.n_ops, rep.log.clone()));
+                                m.insert((*s, *k, *l), (rep.n_total, rep.n_ops, rep.log.clone(), rep.raw_after.clone()));
                             }
                             acc.sample(json!({"counting_run": case_json(&c), "storage_points": rep.n_total, "of_which_before_commit_call": rep.n_ops}));
                         } else {
@@ -963,7 +990,7 @@ pub fn run(args: Args) {
     let counts = counts.into_inner().unwrap_or_default();
 
     if std::env::var("FS_COUNT_ONLY").is_ok() {
-        for ((s, k, l), (n, o, log)) in &counts {
+        for ((s, k, l), (n, o, log, _)) in &counts {
             let commits = log.iter().filter(|x| **x != "stmt").count();
             println!("{} {} {} N={} ops={} non-stmt={}", SHAPES[*s].name, k.name(), l.name(), n, o, commits);
         }
@@ -972,7 +999,7 @@ pub fn run(args: Args) {
     let mut cases: Vec<Case> = Vec::new();
     let mut sampled: Vec<String> = Vec::new();
     for (s, k, l) in &combos {
-        let Some((n, n_ops, log)) = counts.get(&(*s, *k, *l)) else {
+        let Some((n, n_ops, log, raw_after)) = counts.get(&(*s, *k, *l)) else {
             continue;
         };
         let cap: u64 = tier.pick(60, 120);
@@ -1003,6 +1030,7 @@ pub fn run(args: Args) {
                 point_kind: log.get(kk as usize - 1).copied().unwrap_or("?"),
                 in_commit: kk > *n_ops,
                 restart: tier == kvcore::Tier::Thorough || kk % 3 == 0 || kk + 3 > *n,
+                expected_after: if k.deterministic() { raw_after.clone() } else { None },
             });
         }
         for b in 0..=k.steps() {
@@ -1017,6 +1045,7 @@ pub fn run(args: Args) {
                 point_kind: "-",
                 in_commit: false,
                 restart: true,
+                expected_after: None,
             });
         }
     }
@@ -1029,7 +1058,7 @@ pub fn run(args: Args) {
         "storage_points_per_transaction",
         json!(counts
             .iter()
-            .map(|((s, k, l), (n, o, _))| json!({"shape": SHAPES[*s].name, "kind": k.name(), "layer": l.name(), "points": n, "before_commit_call": o}))
+            .map(|((s, k, l), (n, o, _, _))| json!({"shape": SHAPES[*s].name, "kind": k.name(), "layer": l.name(), "points": n, "before_commit_call": o}))
             .collect::<Vec<_>>()),
     );
     {
